@@ -49,6 +49,11 @@ let handle (fs : string list) : string =
       let ms = filter_inventories invs (ostr_of_field qi) (ostr_of_field qd)
                  (ostr_of_field qo) (ostr_of_field qt) in
       (match ms with [] -> "." | _ -> String.concat " " (List.map show_match ms))
+  | "sfilter" :: qi :: qd :: qo :: qt :: rest ->
+      let invs = List.map (fun (k, i) -> (k, to_sphinx i)) (parse_invs rest) in
+      let ms = filter_sphinx_inventories invs (ostr_of_field qi) (ostr_of_field qd)
+                 (ostr_of_field qo) (ostr_of_field qt) in
+      (match ms with [] -> "." | _ -> String.concat " " (List.map show_match ms))
   | _ -> "!badcmd"
 
 let () = main handle
